@@ -3,6 +3,7 @@
 // and CoinStatsIndex objects are created, synced, stopped, destroyed and re-created over their on-disk databases, exactly as the
 // index unit tests drive them (Init, Sync, BlockUntilSyncedToCurrentChain, Interrupt, Stop).
 //   indexes replay <tests.ndjson> <universe.json>
+//   indexes rollover <jobs.ndjson> <universe.json>   the block filter index across the real 16 MiB roll-over of its flat files (see Rollover())
 // After every step, for every active-chain block the specification says the index covers, the lookups are compared with the
 // specification's from-scratch table F(chain): txindex tx -> block; spender outpoint -> (tx, block); filter matches every element of
 // the BIP158 element set, equals the filter recomputed from block+undo, header = Hash(filter hash, previous header); coin
@@ -275,6 +276,164 @@ int ReplayTests(const std::string& path)
     R().Summary();
     return 0;
 }
+
+// ------------------------------------------------------------------ the flat-file layer of the block filter index at its real limit
+// Blocks with ~95 kB filters (one transaction spending 18000 anyone-can-spend outputs and creating 18000 new ones with distinct scripts)
+// are mined until fltr0000<k>.dat exists; then every active block - and every reorged-out block - is looked up (LookupFilter,
+// LookupFilterHeader, LookupFilterRange, LookupFilterHashRange) and compared with BlockFilter(block, undo) recomputed here.
+// job: {rollovers, reorg, restart}
+constexpr int BIG_N = 18000;
+CScript BigScript(int family, int i)
+{
+    const std::vector<unsigned char> data{(unsigned char)(1 + (family % 200)), (unsigned char)(1 + (i >> 8)), (unsigned char)(i & 0xff)};
+    return CScript() << data;
+}
+struct Roller {
+    std::unique_ptr<ChainSim> sim{MakeSim()};
+    std::unique_ptr<BlockFilterIndex> flt;
+    std::vector<CTransactionRef> bigtx;          // bigtx[k] = the big transaction of the k-th big block of the active branch
+    std::vector<uint256> bighash;                // hash of that block
+    std::vector<uint256> stale;                  // reorged-out blocks
+    CAmount value{0};
+    int family{0};
+
+    void Drain() { sim->m_node.validation_signals->SyncWithValidationInterfaceQueue(); }
+    void Start()
+    {
+        flt = std::make_unique<BlockFilterIndex>(interfaces::MakeChain(sim->m_node), BlockFilterType::BASIC, 1 << 20, /*f_memory=*/false);
+        if (!flt->Init()) throw std::runtime_error("block filter index Init failed");
+        flt->Sync(); Drain();
+    }
+    void Stop() { Drain(); flt->Interrupt(); flt->Stop(); flt.reset(); }
+    bool FileExists(int k) { return fs::exists(sim->m_args.GetDataDirNet() / "indexes" / "blockfilter" / "basic" / fs::u8path(strprintf("fltr%05u.dat", k))); }
+    CTransactionRef NextTx(const CTransactionRef& prev)
+    {
+        CMutableTransaction m;
+        m.vin.reserve(BIG_N);
+        for (int i = 0; i < BIG_N; ++i) m.vin.emplace_back(COutPoint(prev->GetHash(), i));
+        m.vout.reserve(BIG_N);
+        ++family;
+        for (int i = 0; i < BIG_N; ++i) m.vout.emplace_back(value, BigScript(family, i));
+        return MakeTransactionRef(m);
+    }
+    void MineBig(const CTransactionRef& tx)
+    {
+        CBlockIndex* tip = sim->Tip();
+        ChainSim::BlockSpec bs; bs.prev = tip->GetBlockHash(); bs.height = tip->nHeight + 1; bs.time = tip->GetBlockTime() + 1;
+        bs.cb_value = GetBlockSubsidy(bs.height, sim->consensus()); bs.txs = {tx}; bs.extra_nonce = family;
+        auto b = sim->BuildBlock(bs);
+        auto [r, nb] = sim->SubmitBlock(b, true);
+        if (!r || sim->Tip()->GetBlockHash() != b->GetHash()) throw std::runtime_error("big block not connected: " + sim->Reason(b->GetHash()));
+        bigtx.push_back(tx); bighash.push_back(b->GetHash());
+        Drain();
+        if (!flt->BlockUntilSyncedToCurrentChain()) throw std::runtime_error("filter index not synced");
+    }
+    void Fund()
+    {
+        auto cbs = sim->MineBase(101);
+        value = cbs[0]->vout[0].nValue / BIG_N;
+        CMutableTransaction m;
+        m.vin.emplace_back(COutPoint(cbs[0]->GetHash(), 0));
+        for (int i = 0; i < BIG_N; ++i) m.vout.emplace_back(value, BigScript(family, i));
+        sim->SignP2PK(m, 0, cbs[0]->vout[0]);
+        first = MakeTransactionRef(m);
+    }
+    CTransactionRef first;
+    BlockFilter Recompute(const CBlockIndex* pi)
+    {
+        CBlock block; CBlockUndo undo;
+        if (!sim->cm().m_blockman.ReadBlock(block, *pi)) throw std::runtime_error("cannot read block");
+        if (pi->nHeight > 0 && !sim->cm().m_blockman.ReadBlockUndo(undo, *pi)) throw std::runtime_error("cannot read undo");
+        return BlockFilter(BlockFilterType::BASIC, block, undo);
+    }
+    // "" or the first disagreement between the index and the recomputation
+    std::string CheckAll()
+    {
+        Drain();
+        auto& cm = sim->cm();
+        const int tiph = WITH_LOCK(cs_main, return cm.ActiveChain().Height());
+        std::vector<BlockFilter> want;
+        uint256 prev_header;
+        for (int h = 0; h <= tiph; ++h) {
+            const CBlockIndex* pi = WITH_LOCK(cs_main, return cm.ActiveChain()[h]);
+            want.push_back(Recompute(pi));
+            const uint256 hdr = want.back().ComputeHeader(prev_header); prev_header = hdr;
+            BlockFilter got; uint256 got_hdr;
+            if (!flt->LookupFilter(pi, got)) return "LookupFilter fails for the active block at height " + std::to_string(h);
+            if (got.GetBlockHash() != pi->GetBlockHash() || got.GetEncodedFilter() != want.back().GetEncodedFilter()) return "LookupFilter returns a wrong filter for the active block at height " + std::to_string(h);
+            if (!flt->LookupFilterHeader(pi, got_hdr) || got_hdr != hdr) return "filter header at height " + std::to_string(h) + " missing or not chained from the recomputed filters";
+        }
+        const CBlockIndex* tip = WITH_LOCK(cs_main, return cm.ActiveChain().Tip());
+        std::vector<BlockFilter> range; std::vector<uint256> hashes;
+        if (!flt->LookupFilterRange(0, tip, range) || range.size() != want.size()) return "LookupFilterRange(0, tip) fails";
+        for (size_t i = 0; i < want.size(); ++i) if (range[i].GetEncodedFilter() != want[i].GetEncodedFilter()) return "LookupFilterRange returns a wrong filter at height " + std::to_string(i);
+        if (!flt->LookupFilterHashRange(0, tip, hashes) || hashes.size() != want.size()) return "LookupFilterHashRange(0, tip) fails";
+        for (size_t i = 0; i < want.size(); ++i) if (hashes[i] != want[i].GetHash()) return "LookupFilterHashRange returns a wrong hash at height " + std::to_string(i);
+        for (const auto& h : stale) {
+            const CBlockIndex* pi = sim->Lookup(h);
+            BlockFilter got;
+            if (!flt->LookupFilter(pi, got)) return "LookupFilter fails for the reorged-out block at height " + std::to_string(pi->nHeight) + " (by-hash entry)";
+            if (got.GetEncodedFilter() != Recompute(pi).GetEncodedFilter()) return "LookupFilter returns a wrong filter for the reorged-out block at height " + std::to_string(pi->nHeight);
+        }
+        R().Count("filter_lookups_compared", (int64_t)want.size() + (int64_t)stale.size());
+        return "";
+    }
+};
+
+int Rollover(const std::string& path)
+{
+    InstallAbortHandlers();
+    ForEachLine(path, [&](size_t n, const UniValue& job) {
+        R().cur_test = n; R().cur_step = 0; R().cur_action = job;
+        std::string why;
+        try {
+            Roller r;
+            r.Fund();
+            r.Start();
+            CTransactionRef tx = r.first;
+            const int rollovers = job["rollovers"].getInt<int>();
+            for (int k = 1; k <= rollovers && why.empty(); ++k) {
+                int after = 0;
+                for (int guard = 0; guard < 400 && after < 3; ++guard) {
+                    r.MineBig(tx); ++R().steps;
+                    tx = r.NextTx(r.bigtx.back());
+                    if (r.FileExists(k)) ++after;
+                }
+                if (!r.FileExists(k)) throw std::runtime_error("the filter file never rolled over");
+                R().Count("rollovers");
+                R().cur_step = k * 10;
+                why = r.CheckAll();
+                if (why.empty() && job["reorg"].get_bool()) {
+                    // reorg across the roll-over: the last four big blocks (the first filter of the new file among them) are replaced
+                    const size_t keep = r.bigtx.size() - 4;
+                    for (size_t i = keep; i < r.bighash.size(); ++i) r.stale.push_back(r.bighash[i]);
+                    r.sim->Invalidate(r.bighash[keep]);
+                    r.Drain();
+                    r.bigtx.resize(keep); r.bighash.resize(keep);
+                    r.family += 50;
+                    tx = r.NextTx(r.bigtx.back());
+                    for (int i = 0; i < 5; ++i) { r.MineBig(tx); ++R().steps; tx = r.NextTx(r.bigtx.back()); }
+                    R().Count("reorgs_across_rollover");
+                    R().cur_step = k * 10 + 1;
+                    why = r.CheckAll();
+                }
+                if (why.empty() && job["restart"].get_bool()) {
+                    r.sim->cm().ActiveChainstate().ForceFlushStateToDisk();
+                    r.Stop(); r.Start();
+                    for (int i = 0; i < 2; ++i) { r.MineBig(tx); ++R().steps; tx = r.NextTx(r.bigtx.back()); }
+                    R().Count("restarts_after_rollover");
+                    R().cur_step = k * 10 + 2;
+                    why = r.CheckAll();
+                }
+            }
+            r.Stop();
+        } catch (const std::exception& e) { why = std::string("exception: ") + e.what(); }
+        if (!why.empty()) R().Mismatch(job, why);
+        ++R().tests;
+    });
+    R().Summary();
+    return 0;
+}
 } // namespace
 
 int main(int argc, char** argv)
@@ -282,5 +441,6 @@ int main(int argc, char** argv)
     if (argc < 4) { std::cerr << "usage: indexes replay <tests> <universe.json>\n"; return 2; }
     { std::ifstream f(argv[3]); std::stringstream ss; ss << f.rdbuf(); if (!g_uni.read(ss.str())) { std::cerr << "bad universe\n"; return 2; } }
     if (std::string(argv[1]) == "replay") return ReplayTests(argv[2]);
+    if (std::string(argv[1]) == "rollover") return Rollover(argv[2]);
     return 2;
 }
